@@ -22,6 +22,11 @@ CHECKS = {
                 text="The same executions as C11/C03 with only the safety obligations asserted: every load/store/memcpy inside its region, shift amount < width, divisor != 0, for all payloads of each well-formed shape. The sanitizer build is used only to confirm solver witnesses.",
                 note="Leaf kernels and NumpyIO methods; Cython runtime, numpy and speedups' CPython-API loops are outside. Pointer formation without dereference is not asserted."),
 }
+E2 = "E2-pyshim"
+CHECKS["C05"] = dict(engine=E2, cat="other", design="DESIGN.md §4 C05",
+    technique="CrossHair (z3) symbolic execution of the real api.filter_* functions with contract shims; counterexamples replayed through ParquetFile.to_pandas(filters=...)",
+    text="The real filter_val / filter_in / filter_not_in / filter_out_stats / filter_out_cats / filter_row_groups are executed symbolically: chunk bounds (possibly absent), null counts, constants, operator, and a witness row are symbolic integers (and short strings); the postcondition 'a row satisfying the predicate is never pruned, order preserved' is confirmed over all paths or refuted with a counterexample that is replayed on a real file.",
+    note="Bounded by harness shapes (<=2 clauses per AND group, <=2 OR groups, in-lists <=3, strings <=2 chars); statistics decoding and partition-text typing are stubbed to identity; float/NaN/datetime bounds outside.")
 NA = {
     "C17": "dtype/categorical/index prediction vs what pandas allocates: no symbolic model of pandas' allocation is within reach and prediction and allocation share one function; row counts are decided under C06",
     "C20": "quantifies over CPython thread schedules of code running in pandas/numpy/C extensions; CrossHair executes one thread and no engine here gives a semantics for interleaved bytecode; a hand-written interleaving model would not be the real code",
